@@ -937,7 +937,24 @@ fn search_differential(seed: u64, budget: usize, want: Option<&str>) -> (usize, 
             prefixes: [vec![], vec![], vec!["x-amz-meta-"], vec!["X-Amz-"]][pick(&mut x, 4)].clone() };
         let mut r = Req { method: ["GET", "POST", "PUT"][pick(&mut x, 3)], path: paths[pick(&mut x, paths.len())].into(), query: queries[pick(&mut x, queries.len())].into(),
             headers: vec![("Host".into(), "example.amazonaws.com".into())], body: vec![] };
+        if pick(&mut x, 3) == 0 {
+            // token soup: paths and queries assembled from a small alphabet of troublesome pieces
+            let ptoks = ["/", "/", "a", "b", ".", "..", "%2e", "%2E", "%2F", "%2f", "%41", "~", "%7e", "%7E", "%25", "%", "%4", "%zz", ";", "@", ":", "=", ",", "-", "_", "%20", "%C3%A9", "!", "*", "'", "(", ")"];
+            let mut pth = String::from("/");
+            for _ in 0..pick(&mut x, 8) { pth.push_str(ptoks[pick(&mut x, ptoks.len())]); }
+            r.path = pth;
+            let qtoks = ["a", "b", "A", "=", "=", "&", "&", "%3D", "%26", "+", "%20", "%2B", "%", "%2", "%zz", "%41", "%61", "~", "%7E", "-", ".", "_", "X-Amz-Signature", "x", "1", "%C3%A9", "/", "?", ":", "@"];
+            let mut q = String::new();
+            for _ in 0..pick(&mut x, 10) { q.push_str(qtoks[pick(&mut x, qtoks.len())]); }
+            r.query = q;
+        }
         for (k, v) in extra[pick(&mut x, extra.len())] { r.headers.push((k.to_string(), v.to_string())); }
+        if pick(&mut x, 4) == 0 {
+            let vtoks = [" ", "  ", "\t", "a", "b", ",", ";", "=", "\"", "é", "~"];
+            let mut v = String::new();
+            for _ in 0..pick(&mut x, 7) { v.push_str(vtoks[pick(&mut x, vtoks.len())]); }
+            r.headers.push((["X-Amz-Meta-Soup", "x-soup", "X-Custom"][pick(&mut x, 3)].to_string(), v));
+        }
         if pick(&mut x, 2) == 0 { r.headers.push(("Content-Type".into(), ctypes[pick(&mut x, ctypes.len())].into())); r.body = bodies[pick(&mut x, bodies.len())].to_vec(); }
         // sign with the reference signer as a client would: over the request the model says the server will canonicalise
         let date_text = dates[pick(&mut x, dates.len())];
